@@ -43,7 +43,9 @@ pub trait Spec: Send + Sync + 'static {
     /// Applies `op` to the real machine and to the model and compares every observable.
     /// Ok(Some(m')) = agreed; Ok(None) = transition not enabled; Err = divergence (recorded,
     /// successors pruned because the model no longer tracks the code).
-    fn apply(&self, sut: &mut Axecutor, m: &Self::M, op: &Self::Op) -> Result<Option<Self::M>, Divergence>;
+    /// `soft` collects disagreements after which the model still tracks the code (e.g. a failing
+    /// read): they are recorded but exploration continues below the transition.
+    fn apply(&self, sut: &mut Axecutor, m: &Self::M, op: &Self::Op, soft: &mut Vec<Divergence>) -> Result<Option<Self::M>, Divergence>;
     /// model-free invariants evaluated in every reached state
     fn invariants(&self, _sut: &Axecutor, _m: &Self::M) -> Vec<Divergence> {
         vec![]
@@ -194,15 +196,23 @@ impl<S: Spec> Model for StModel<S> {
                 (**c).want(0);
             }
         }
-        self.shared.transitions.fetch_add(1, Ordering::Relaxed);
+        let tcount = self.shared.transitions.fetch_add(1, Ordering::Relaxed);
+        if tcount & 0x3FF == 0 {
+            let mut c = self.shared.ctx.lock().unwrap();
+            unsafe { (**c).beat() };
+        }
         let mut sut = s.sut.0.clone();
-        let r = crate::emu::guarded(|| self.spec.apply(&mut sut, &s.model, &op));
+        let mut soft: Vec<Divergence> = vec![];
+        let r = crate::emu::guarded(|| self.spec.apply(&mut sut, &s.model, &op, &mut soft));
+        for d in soft {
+            self.record(d, &s.hist, Some(&op), s.init);
+        }
         let kind = format!("{:?}", op).split(|c: char| !c.is_alphanumeric() && c != '_').next().unwrap_or("").to_string();
         match r {
             Err(p) => {
                 // a panic escaping the spec's own guarded calls
                 self.record(
-                    div(format!("{kind}|panic@{}", p.loc), format!("panic: {}", crate::emu::first_line(&p.msg))),
+                    div(format!("{kind}|panic@{}", p.tag()), format!("panic: {}", crate::emu::first_line(&p.msg))),
                     &s.hist,
                     Some(&op),
                     s.init,
@@ -279,12 +289,15 @@ pub struct StOutcome {
 pub fn replay_history<S: Spec>(spec: &S, init: usize, hist: &[S::Op]) -> Result<u64, String> {
     let inits = spec.inits();
     let (_l, mut sut, mut m) = inits.into_iter().nth(init).ok_or("bad init index")?;
+    let mut softs: Vec<String> = vec![];
     for op in hist {
-        let r = crate::emu::guarded(|| spec.apply(&mut sut, &m, op));
+        let mut soft: Vec<Divergence> = vec![];
+        let r = crate::emu::guarded(|| spec.apply(&mut sut, &m, op, &mut soft));
+        softs.extend(soft.into_iter().map(|d| d.key));
         match r {
             Err(p) => {
                 let kind = format!("{:?}", op).split(|c: char| !c.is_alphanumeric() && c != '_').next().unwrap_or("").to_string();
-                return Err(format!("{kind}|panic@{}", p.loc));
+                return Err(format!("{kind}|panic@{}", p.tag()));
             }
             Ok(Err(d)) => return Err(d.key),
             Ok(Ok(None)) => return Err("disabled".into()),
@@ -294,6 +307,25 @@ pub fn replay_history<S: Spec>(spec: &S, init: usize, hist: &[S::Op]) -> Result<
                 }
                 m = m2;
             }
+        }
+    }
+    if !softs.is_empty() {
+        return Err(softs.join("\n"));
+    }
+    Ok(spec.fingerprint(&sut) ^ (init as u64).wrapping_mul(0x9e3779b97f4a7c15))
+}
+
+/// Like `replay_history` but ignores soft divergences (used to validate clone chains).
+pub fn replay_fp<S: Spec>(spec: &S, init: usize, hist: &[S::Op]) -> Result<u64, String> {
+    let inits = spec.inits();
+    let (_l, mut sut, mut m) = inits.into_iter().nth(init).ok_or("bad init index")?;
+    for op in hist {
+        let mut soft: Vec<Divergence> = vec![];
+        match crate::emu::guarded(|| spec.apply(&mut sut, &m, op, &mut soft)) {
+            Ok(Ok(Some(m2))) => m = m2,
+            Ok(Ok(None)) => return Err("disabled".into()),
+            Ok(Err(d)) => return Err(d.key),
+            Err(p) => return Err(format!("panic@{}", p.tag())),
         }
     }
     Ok(spec.fingerprint(&sut) ^ (init as u64).wrapping_mul(0x9e3779b97f4a7c15))
@@ -316,7 +348,7 @@ pub fn run_stexp<S: Spec>(
     loop {
         let opts = SupOpts {
             nshards: 1,
-            hang_secs: 15,
+            hang_secs: 5,
             alloc_limit,
             wall_cap_secs,
             ..Default::default()
@@ -376,7 +408,7 @@ pub fn run_stexp<S: Spec>(
                 for (init, hist, fp) in fr.iter() {
                     let ops: Option<Vec<S::Op>> = hist.iter().map(|v| parse_op(v)).collect();
                     if let Some(ops) = ops {
-                        match replay_history(&*spec2, *init, &ops) {
+                        match replay_fp(&*spec2, *init, &ops) {
                             Ok(fp2) if fp2 == *fp => validated += 1,
                             other => mismatches.push(format!("{hist:?}: chain {fp:#x} replay {other:?}")),
                         }
@@ -521,7 +553,7 @@ pub fn confirm_stexp<S: Spec>(spec: &S, w: &Value) -> Result<Vec<String>, String
             nshards: 1,
             ..Default::default()
         };
-        let (h, _m) = sup::run_single(&opts, 0, 20, |ctx| {
+        let (h, _m) = sup::run_single(&opts, 0, 6, |ctx| {
             if ctx.want(0) {
                 let _ = replay_history(spec, init, &ops);
             }
@@ -534,6 +566,6 @@ pub fn confirm_stexp<S: Spec>(spec: &S, w: &Value) -> Result<Vec<String>, String
     let ops = ops.ok_or("history does not parse")?;
     match replay_history(spec, init, &ops) {
         Ok(_) => Ok(vec![]),
-        Err(k) => Ok(vec![k]),
+        Err(k) => Ok(k.split('\n').map(|s| s.to_string()).collect()),
     }
 }
